@@ -61,8 +61,29 @@ func (r *Runner) RunHistory(histNo int, o HistOpts) error {
 				insertOnly = false
 			}
 		}
+		if o.Cold && !r.Cfg.Mem && r.Cfg.Quantised {
+			// the warm instance as the write left it (its cache was loaded from storage before the batch and has
+			// lived across it) against a cold copy
+			if cold, done, err := r.ColdCopy(); err == nil {
+				for _, p := range r.Cfg.Props {
+					if p.Type == models.IndexTypeVectorFlat {
+						for i := 0; i < o.Rank; i++ {
+							r.FlatPair(r.Shard, cold, p, leaves, "kept-warm/cold")
+						}
+					}
+					if p.Type == models.IndexTypeVectorVamana {
+						for i := 0; i < o.Rank; i++ {
+							r.VamanaPair(r.Shard, cold, p, "kept-warm/cold")
+						}
+					}
+				}
+				done()
+			}
+		}
 		observe(b)
-		if o.Cold && !r.Cfg.Mem {
+		// (trained quantisers: evict only every third batch, so that a cache loaded from storage lives across
+		// several writes before it is compared with a cold copy above)
+		if o.Cold && !r.Cfg.Mem && !(r.Cfg.Quantised && b%3 != 0) {
 			// the same observations after eviction ...
 			r.Evict()
 			observe(b)
